@@ -429,6 +429,13 @@ def run_special(tier, r):
         ("union-varsize-name", C.Struct("u" / C.Union("a", "a" / C.VarInt, "b" / C.CString("ascii"), "c" / C.PascalString(C.Byte, "ascii")), "t" / C.Byte), [b"\x81\x01\x00zz", b"\x01a\x00\x05"], []),
         ("union-varsize-mixed", C.Struct("u" / C.Union(1, "a" / C.Byte, "b" / C.VarInt, "c" / C.Int16ub), "t" / C.Byte), [b"\x81\x01\x07", b"\x01\x02\x03"], []),
         ("union-varsize-none", C.Struct("u" / C.Union(None, "a" / C.CString("ascii"), "b" / C.VarInt), "t" / C.Byte), [b"ab\x00\x81\x01zz", b"\x00\x05"], []),
+        # look-ahead over a member that fails: the interpreter yields None, so the input is accepted and compiled code must agree
+        ("peek-short", C.Struct("p" / C.Peek(C.Int16ub), "b" / C.Byte), [b"\x01", b"\x01\x02", b""], []),
+        ("peek-short-struct", C.Struct("p" / C.Peek(C.Struct("a" / C.Byte, "b" / C.Int32ul)), "b" / C.Byte), [b"\x01\x02\x03", b"\x01\x02\x03\x04\x05"], []),
+        ("peek-failing-const", C.Struct("p" / C.Peek(C.Const(b"\x07\x08")), "b" / C.Byte), [b"\x07\x08", b"\x07\x09", b"\x07"], []),
+        ("peek-bad-string", C.Struct("p" / C.Peek(C.PaddedString(2, "utf8")), "b" / C.Byte), [b"\xff\xfe", b"ab"], []),
+        ("peek-short-region", C.Struct("p" / C.Peek(C.Struct("a" / C.Byte, "b" / C.Prefixed(C.Byte, C.Const(b"\x01")))), "t" / C.Byte), [b"\x00\x02\x01", b"\x00\x01\x01"], []),
+        ("peek-short-fixedsized", C.Struct("p" / C.Peek(C.FixedSized(4, C.GreedyBytes)), "t" / C.Byte), [b"\x01\x02", b"\x01\x02\x03\x04"], []),
         ("union", C.Union(0, "a" / C.Int16ub, "b" / C.Byte, "c" / C.Bytes(2)), [b"\x01\x02", b"\x01"], [dict(a=258), dict(b=1), dict(c=b"xy")]),
         ("union-none", C.Struct("u" / C.Union(None, "a" / C.Int16ub, "b" / C.Byte), "t" / C.Byte), [b"\x01\x02\x03"], [dict(u=dict(a=5), t=1)]),
         ("union-name", C.Struct("u" / C.Union("b", "a" / C.Int16ub, "b" / C.Byte), "t" / C.Byte), [b"\x01\x02\x03"], []),
